@@ -1,3 +1,40 @@
-(* placeholder until the C13 theorems land *)
-Lemma c13_placeholder : True. Proof. exact I. Qed.
-Print Assumptions c13_placeholder.
+(* C13 -- only one process at a time has the database open.
+   Model: model/Proc.v, the process-level transition system of OpenOptions::open at system-call granularity, for
+   ANY number of processes and ANY schedule. The GENERATED flag Consts.lock_before_init says which protocol the
+   source implements; the system-call word of every real open is checked against the automaton on every run. *)
+From Coq Require Import List.
+From Jamm Require Import Consts Proc ProcFacts.
+Import ListNotations.
+
+(* two openers are never inside the database at the same time (either protocol) *)
+Theorem C13_one_inside : forall lf c n s0 s,
+  s0 = pinit n \/ s0 = pinit_existing c n -> preachable lf s0 s -> one_inside s.
+Proof. exact C13_mutex. Qed.
+Print Assumptions C13_one_inside.
+
+(* repaired protocol: no opener fails (no AlreadyExists, no panic on a half-created file) ... *)
+Theorem C13_nobody_fails : forall c n s0 s,
+  s0 = pinit n \/ s0 = pinit_existing c n -> preachable true s0 s -> nobody_failed s.
+Proof. exact C13_no_failure. Qed.
+Print Assumptions C13_nobody_fails.
+
+(* ... whoever is inside sees an initialised file holding every commit made so far ... *)
+Theorem C13_sees_everything : forall c n s0 s,
+  s0 = pinit n \/ s0 = pinit_existing c n -> preachable true s0 s -> sees_all s.
+Proof. exact C13_sees_all. Qed.
+Print Assumptions C13_sees_everything.
+
+(* ... and a waiting opener is never stuck: the lock holder can always move *)
+Theorem C13_no_deadlock : forall c n s0 s,
+  s0 = pinit n \/ s0 = pinit_existing c n -> preachable true s0 s ->
+  p_all_done s = false -> exists i s', pstep true s i = Some s'.
+Proof. exact C13_progress. Qed.
+Print Assumptions C13_no_deadlock.
+
+Theorem C13_source_locks_first : lock_before_init = true.
+Proof. reflexivity. Qed.
+
+(* the pinned protocol (create and initialise, then lock) violates the property *)
+Theorem C13_pinned_refuted_thm : ~ (forall s, preachable false (pinit 2) s -> nobody_failed s).
+Proof. exact C13_pinned_refuted. Qed.
+Print Assumptions C13_pinned_refuted_thm.
